@@ -1,6 +1,7 @@
 package main
 
 import (
+	"strconv"
 	"bufio"
 	"encoding/hex"
 	"fmt"
@@ -25,6 +26,15 @@ import (
 
 var workerBusySince atomic.Int64
 
+// workerDeadline: 10 s per case; VERIF_WORKER_DEADLINE_S sets another value (used when a case that
+// ran out of time next to other work is run once more alone, to tell a slow machine from a hang)
+func workerDeadline() time.Duration {
+	if v, err := strconv.Atoi(os.Getenv("VERIF_WORKER_DEADLINE_S")); err == nil && v > 0 {
+		return time.Duration(v) * time.Second
+	}
+	return 10 * time.Second
+}
+
 func workerMain() {
 	dir := os.Args[2]
 	debug.SetMaxStack(256 << 20)
@@ -37,7 +47,7 @@ func workerMain() {
 				fmt.Fprintln(os.Stderr, "WATCHDOG memory")
 				os.Exit(99)
 			}
-			if t := workerBusySince.Load(); t != 0 && time.Now().UnixNano()-t > int64(10*time.Second) {
+			if t := workerBusySince.Load(); t != 0 && time.Now().UnixNano()-t > int64(workerDeadline()) {
 				fmt.Fprintln(os.Stderr, "WATCHDOG deadline")
 				os.Exit(98)
 			}
